@@ -156,11 +156,23 @@ pub fn run(tier: Tier) -> i32 {
         let c = &cases[i];
         ctx.eval(1);
         done.fetch_add(1, Ordering::Relaxed);
-        let reference = single_chunk(&c.body, &c.filters, &c.headers);
+        let case_json = || json!({"body": c.body, "body_text": String::from_utf8_lossy(&c.body), "filters": c.filters, "headers": c.headers, "schedule": [c.body.len()], "watch_label": "chunked-filtering"});
+        let reference = match crate::common::watched(case_json, || crate::common::guarded(|| single_chunk(&c.body, &c.filters, &c.headers))) {
+            Ok(r) => r,
+            Err((loc, msg)) => {
+                ctx.report(Violation {
+                    signature: format!("panic:{loc}"),
+                    what: format!("filters {}: the filter chain panicked at {loc}: {msg}; body {:?} delivered as one chunk", c.filters_name, String::from_utf8_lossy(&c.body)),
+                    case: json!({"body": c.body, "body_text": String::from_utf8_lossy(&c.body), "filters": c.filters, "headers": c.headers, "schedule": [c.body.len()]}),
+                    weight: c.body.len() as u64,
+                });
+                return;
+            }
+        };
         if reference != c.body {
             nontrivial.fetch_add(1, Ordering::Relaxed);
         }
-        let checked = match crate::common::guarded(|| check_case(&c.body, &c.filters, &c.headers, Some((&states, &transitions, &max_chunks)))) {
+        let checked = match crate::common::watched(case_json, || crate::common::guarded(|| check_case(&c.body, &c.filters, &c.headers, Some((&states, &transitions, &max_chunks))))) {
             Ok(v) => v,
             Err((loc, msg)) => vec![(format!("panic:{loc}"), format!("the filter chain panicked at {loc}: {msg}; body {:?}", String::from_utf8_lossy(&c.body)), vec![])],
         };
